@@ -287,6 +287,39 @@ pub fn cases(tier: &str, seed: u64) -> Vec<Case> {
         if total > 4000 { c.proj = Proj::None; c.op = String::new(); }
         v.push(c);
     }
+    // reference encodings by the independent encoder, with compression pointers in any name - also in the types whose
+    // senders must not compress (RRSIG signer, SRV target, IPSECKEY gateway ...): the parser must cope with what other
+    // implementations send; each encoding whole and cut at every length
+    {
+        use crate::refenc::{self, Compress};
+        let mut g2 = Gen::new(seed ^ 0xC01E);
+        let mut r2 = crate::rng::Rng::new(seed ^ 0x1EC0);
+        refenc::COMPRESS_GATEWAY.store(true, std::sync::atomic::Ordering::Relaxed);
+        for kind in 0..N_KINDS {
+            // the types with a name followed by a variable-length tail get more draws, half of them with a tail of 0 .. 3 bytes
+            let tail_after_name = matches!(KIND_NAMES[kind], "RRSIG" | "NSEC" | "SVCB" | "HTTPS" | "IPSECKEY");
+            for rep in 0..(if thorough { 40 } else if tail_after_name { 24 } else { 4 }) {
+                g2.share = 7;
+                let mut rd = g2.rdata(kind);
+                if matches!(rd, rdata::RData::OPT(_)) { continue; }
+                if rep % 2 == 0 {
+                    match &mut rd {
+                        rdata::RData::RRSIG(x) => { x.signature = vec![0xABu8; rep / 2 % 4].into(); }
+                        rdata::RData::NSEC(x) => { x.type_bit_maps.truncate(rep / 2 % 2); }
+                        _ => {}
+                    }
+                }
+                let first = ResourceRecord::new(g2.name(), CLASS::IN, 1, rdata::RData::NS(rdata::NS(g2.name())));
+                let rr = ResourceRecord::new(g2.name(), CLASS::IN, 5, rd);
+                let ptxt = format!("P 7 32768 0 0 o0 0 2 {} {} 0 0", text::rr(&first), text::rr(&rr));
+                let (bytes, _) = refenc::encode_packet(&ptxt, Compress::Random(&mut r2, 7), false, None);
+                if bytes.len() > 700 { continue; }
+                v.push(parse_case(&bytes, "reference-compressed"));
+                if rep < 2 { for cut in 12..bytes.len() { v.push(parse_case(&bytes[..cut], "reference-compressed-cut")); } }
+            }
+        }
+        refenc::COMPRESS_GATEWAY.store(false, std::sync::atomic::Ordering::Relaxed);
+    }
     // a long run of one-byte labels as the first question's name, and many small questions that point at it: no
     // name may grow beyond 255 octets whether it is read in place or reached through a pointer (the limit is part of
     // what bounds the work per name)
